@@ -256,6 +256,12 @@ func (s *Schema) validate(document jschema.Document) error {
 	}
 
 	if empty {
+		// The document says so itself, with its file: nothing but blanks.
+		if d, ok := document.(*json.Document); ok {
+			if err := d.Check(); err != nil {
+				return err
+			}
+		}
 		return internal.NewValidatorError(errors.ErrEmptyJson, errors.ErrEmptyJson.Error())
 	}
 
